@@ -93,6 +93,8 @@ pub enum AuxvG {
     True,
     Zeros,
     Partial(u8),
+    /// arbitrary caller-supplied values (phnum, phdr, gate, entry)
+    Arbitrary(Vec<u64>),
 }
 
 #[derive(Debug, Clone, PartialEq, Eq, Hash, Serialize, Deserialize)]
@@ -300,6 +302,7 @@ pub fn opts_of(c: &Case, bt: &Built, t: &Target) -> DumpOpts {
             }
             Some(a)
         }
+        AuxvG::Arbitrary(ref v) => Some([v.first().copied().unwrap_or(0), v.get(1).copied().unwrap_or(0), v.get(2).copied().unwrap_or(0), v.get(3).copied().unwrap_or(0)]),
     };
     d
 }
@@ -406,7 +409,13 @@ pub fn opts_strategy() -> impl Strategy<Value = OptsG> {
         proptest::option::weighted(0.3, addr_strategy()),
         proptest::collection::vec((any::<u16>(), any::<u32>(), prop_oneof![Just(0u32), Just(7u32), 0u32..5000, any::<u32>()]), 0..5),
         proptest::collection::vec((addr_strategy(), any::<u16>(), proptest::option::of(proptest::collection::vec(prop_oneof![Just('/'), Just(' '), Just('.'), (b'a'..=b'z').prop_map(|c| c as char)], 0..12).prop_map(|v| v.into_iter().collect::<String>())), proptest::collection::vec(any::<u8>(), 0..24)), 0..4),
-        prop_oneof![3 => Just(AuxvG::None), 2 => Just(AuxvG::True), 1 => Just(AuxvG::Zeros), 2 => (1u8..15).prop_map(AuxvG::Partial)],
+        prop_oneof![
+            3 => Just(AuxvG::None),
+            2 => Just(AuxvG::True),
+            1 => Just(AuxvG::Zeros),
+            2 => (1u8..15).prop_map(AuxvG::Partial),
+            2 => proptest::collection::vec(prop_oneof![any::<u64>(), Just(0u64), Just(1u64), Just(u64::MAX), Just(1u64 << 61), (0u64..0x7fff_ffff_ffff), Just(STACK_AREA + 0x20_0000)], 4).prop_map(AuxvG::Arbitrary)
+        ],
         any::<u16>(),
     )
         .prop_map(|(crash, limit, sanitize, skip, app, user, auxv, blamed)| OptsG { crash, limit, sanitize, skip, app, user, auxv, blamed })
@@ -465,7 +474,7 @@ pub fn run(ctx: &mut LaneCtx) {
     ctx.run_sub(
         SubSpec {
             name: "dso-stream",
-            cases: (3_000, 300_000),
+            cases: (8_000, 300_000),
             rule: "generated (valid and corrupted) linker data in the arena helper through write_dso_debug_stream; whenever it succeeds the produced stream must lie inside the image with size 36+16k, its link-map array and every name string inside the image, no overlap, earlier bytes untouched; non-trivial = stream produced; distinct = hash of case",
             strategy: crate::vcore::dso::dso_strategy().boxed(),
             max_shrink_iters: 600,
@@ -477,7 +486,7 @@ pub fn run(ctx: &mut LaneCtx) {
     ctx.run_sub(
         SubSpec {
             name: "live-structure",
-            cases: (640, 60_000),
+            cases: (1_600, 60_000),
             rule: "generated target processes (main + 0..63 threads: parked/spinner/sleeper/null-sp, names unset/UTF-8/non-UTF-8, custom stacks with sp in stack/guard/hole) x extra mappings x 0..40 open descriptors x writer options (crash context with boundary rip/rsp, size limit none/tiny/threshold+-1/huge, sanitize, skip-unreferenced, app memory, user mappings, direct auxv); successful images are decoded strictly (18 entries, exact stream sizes, all RVAs, no overlap); non-trivial = dump succeeded and (mixed named/unnamed threads, or >=3 options, or user mappings/app memory); distinct = hash of case",
             strategy: case_strategy(if ctx.tier == Tier::Quick { 24 } else { 64 }).boxed(),
             max_shrink_iters: 200,
